@@ -7,7 +7,7 @@ SIMCORE = os.path.join(VERIF, "simcore")
 
 # property -> (module, variants, quick runs, thorough runs)
 PROPS = {
-    "C18": ("atom", ["le"], 150000, 4000000),
+    "C18": ("atom", ["le", "be"], 160000, 4000000),
     "C16": ("atom+atomimp", ["le", "be", "beport"], 100000, 3000000),
     "C17": ("atom", ["le", "be"], 80000, 2500000),
     "C05": ("mem+atom", ["le", "gnuld", "gccO2", "clangO3"], 15000, 360000),
@@ -161,7 +161,7 @@ RULES = {
 }
 
 ASSUME = {
-    "C18": ["shared memory of the generated 'atom' module (min 1, max 6 pages)", "sequentially consistent interleavings only (no weak-memory reorderings)", "race detector sees accesses of instrumented code (generated C, w2c2_base.h inlines, futex) to the descriptor fields data,size,pages,maxPages"],
+    "C18": ["shared memory of the generated 'atom' module (min 1, max 6 pages), little-endian and forced big-endian build", "sequentially consistent interleavings only (no weak-memory reorderings)", "race detector sees accesses of instrumented code (generated C, w2c2_base.h inlines, futex) to the descriptor fields data,size,pages,maxPages"],
     "C16": ["on the LE build each atomic builtin is one indivisible step as on hardware; the builtin's memory-order argument drives an x86-TSO store-buffer model: a store weaker than seq_cst is delayed in its task's FIFO buffer until the seeded scheduler drains it or the task executes a fence, read-modify-write, seq_cst store or lock operation, loads see the own buffer; load-load/load-store reordering and non-multi-copy-atomic machines are not modelled", "when a store was delayed the total order only has to respect program order (sequential consistency), otherwise real-time order too (linearizability); checked per 8-byte word and jointly over all 2-4 touched words", "histories <= 28 ops, linearizability search budget 1e6 states (over-budget histories are counted, never flagged)"],
     "C17": ["simulated pthread mutex/cond semantics follow POSIX (any waiter may be chosen by signal, spurious wake-ups allowed)", "CLOCK_REALTIME does not jump during a wait"],
     "C05": ["only in-bounds accesses are generated (w2c2 does not bounds-check)", "two generated modules ('mem': non-shared memory of 1..8 pages with 3 passive segments; 'atom': shared memory of 1..6 pages whose maximum is reserved up front), the first built four ways: instrumented clang -O1 (arrays and gnu-ld data embedding), plain gcc -O2, plain clang -O3"],
